@@ -284,6 +284,14 @@ func genTriviaA(r *Rng, must bool) string {
 	return t
 }
 
+// a line comment as the very last thing of a text, its line not ended by a line break
+func lastLineComment(r *Rng) string {
+	if !r.Chance(10) {
+		return ""
+	}
+	return pick(r, []string{" // end", "//", "// é ; } \" x", "\n// last line", " ///* x"})
+}
+
 func genYArg(r *Rng, tier string, n int, emit func(Case)) {
 	for i := 0; i < n; i++ {
 		v := genArgValue(r)
@@ -373,6 +381,7 @@ func genYArg(r *Rng, tier string, n int, emit func(Case)) {
 			src.WriteString(genTrivia(r, false))
 		}
 		src.WriteString(";" + genTriviaA(r, false) + "}")
+		src.WriteString(lastLineComment(r))
 		text := src.String()
 		emit(Case{"k": "yparse", "hex": hex.EncodeToString([]byte(text)), "text": text, "pieces": pieces, "value": hex.EncodeToString([]byte(v))})
 	}
@@ -477,7 +486,7 @@ func genYTree(r *Rng, tier string, n int, emit func(Case)) {
 		b.WriteString(genTriviaA(r, false))
 		t.spell(r, &b, true)
 		b.WriteString(genTriviaA(r, false))
-		text := b.String()
+		text := b.String() + lastLineComment(r)
 		emit(Case{"k": "yparse", "hex": hex.EncodeToString([]byte(text)), "text": text, "expect": "ok leak=0 " + t.dump(text)})
 	}
 }
@@ -503,7 +512,7 @@ func genYReal(r *Rng, tier string, n int, emit func(Case)) {
 				}
 			}
 		}
-		text := renderSchema(top)
+		text := renderSchema(top) + lastLineComment(r)
 		emit(Case{"k": "yparse", "hex": hex.EncodeToString([]byte(text)), "text": text, "real": true})
 	}
 }
